@@ -832,7 +832,7 @@ func TestC05(t *testing.T) {
 					continue
 				}
 				for ki := range w.signers(inst) {
-					if sel.IntN(10) < 4 { // ~60 % of (instance, key) pairs per round
+					if sel.IntN(10) < 3 { // ~70 % of (instance, key) pairs per round
 						continue
 					}
 					jobs = append(jobs, job{kind: "mutation", inst: ii, key: ki, round: round, withKid: sel.IntN(3) > 0})
